@@ -13,6 +13,7 @@ from ..provider.located_request import LocatedRequest, for_predicate
 from ..provider.location import GenericParamLoc
 from ..struct_trail import append_trail, render_trail_as_note
 from ..type_tools import is_subclass_soft
+from ..type_tools.basic_utils import is_named_tuple_class
 from .json_schema.definitions import JSONSchema
 from .json_schema.request_cls import JSONSchemaRequest
 from .json_schema.schema_model import JSONSchemaType
@@ -61,6 +62,9 @@ class IterableProvider(MorphingProvider):
             raise CannotProvide
 
         if issubclass(norm.origin, collections.abc.Mapping):
+            raise CannotProvide
+
+        if is_named_tuple_class(norm.origin):  # generic NamedTuple with one type parameter is a model, not an iterable
             raise CannotProvide
 
         return norm, arg
